@@ -524,6 +524,18 @@ def _main(ck, bdir, cat, rng, scratch, fast, tier):
             w = wit[key]
             hist = [synth_event(cat, x) for x in w["pre"]] + [{"th": 1, "m": "KCO", "payload": ""}, synth_event(cat, w["ev"])]
             probes.append(("listed+switched-out", key, key[0], hist, len(hist) - 1, not noooc[key[0]], w))
+    # listed events that carry a string once more right after themselves with ANOTHER integer argument and
+    # the SAME string (two task types with one label): the string is not a key
+    for key in sorted(listed):
+        e = event_of(cat, key[0], key[1], key[2])
+        w = wit[key]
+        if not e or not any(a["t"] == "str" for a in e["args"]) or not w["ev"].get("a"):
+            continue
+        a2 = [(v + 1 if (isinstance(v, int) and e["args"][i]["t"] != "str") else v) for i, v in enumerate(w["ev"]["a"])]
+        if a2 == list(w["ev"]["a"]):
+            continue
+        hist = [synth_event(cat, x) for x in w["pre"]] + [synth_event(cat, w["ev"]), synth_event(cat, dict(w["ev"], a=a2))]
+        probes.append(("listed", key, key[0], hist, len(hist) - 1, True, w))
     unl = [k for k in space if k not in listed]
     if tier == "quick":
         near = set()
@@ -629,7 +641,7 @@ def _main(ck, bdir, cat, rng, scratch, fast, tier):
         rr = emu.runtool(bdir, "ovnidump", [td], timeout=60)
         out = rr.out.decode("latin1", "replace")
         got = {}
-        for ln in out.splitlines():
+        for ln in out.split("\n"):
             m = re.match(r"^\s*(-?\d+)  (...)  (\S+)  (.*)$", ln)
             if m:
                 got.setdefault(int(m.group(1)), []).append((m.group(2), m.group(4)))
@@ -686,7 +698,7 @@ def _main(ck, bdir, cat, rng, scratch, fast, tier):
         rr = emu.runtool(bdir, "ovnidump", [td], timeout=60)
         out = rr.out.decode("latin1", "replace")
         got = {}
-        for ln in out.splitlines():
+        for ln in out.split("\n"):
             m = re.match(r"^\s*(-?\d+)  (...)  (\S+)  (.*)$", ln)
             if m:
                 got.setdefault(int(m.group(1)), []).append((m.group(2), m.group(4)))
